@@ -1948,6 +1948,17 @@ int EGLPNUM_TYPENAME_ILLlib_chgsense (
 
 	for (i = 0; i < num; i++)
 	{
+		if (rowlist[i] < 0 || rowlist[i] >= qslp->nrows)
+		{
+			QSlog("EGLPNUM_TYPENAME_ILLlib_chgsense called with bad row index: %d",
+									rowlist[i]);
+			rval = 1;
+			ILL_CLEANUP;
+		}
+	}
+
+	for (i = 0; i < num; i++)
+	{
 		j = qslp->rowmap[rowlist[i]];
 		if (A->matcnt[j] != 1)
 		{
